@@ -274,14 +274,36 @@ theorem dhash_eq (m : Msg) : m.dhash = .ok (Flat.dhash m.flat) := by
             · exact (read_eq m1 len).1
           rw [hword]
 
-theorem sappendLoop_eq (fs : List Frag) (cur : List Byte) (done : List (List Byte)) (total : Nat) :
-    Msg.sappendLoop fs cur done total = (total + fs.flatten.length, cur ++ fs.flatten, done) := by
+theorem pushPart_eq (step : Nat → Nat) (fuel : Nat) (f : Frag) (cur : List Byte) (total : Nat) (h : f.length ≤ fuel) :
+    Msg.pushPart step fuel f cur total = (cur ++ f, total + f.length) := by
+  induction fuel generalizing f cur total with
+  | zero =>
+    have : f = [] := List.eq_nil_of_length_eq_zero (by omega)
+    simp [Msg.pushPart, this]
+  | succ n ih =>
+    unfold Msg.pushPart
+    by_cases h0 : f.length = 0
+    · have : f = [] := List.eq_nil_of_length_eq_zero h0
+      simp [this]
+    · simp only [h0, if_false]
+      generalize hk : Nat.max 1 (Nat.min (step f.length) f.length) = k
+      have hk1 : 1 ≤ k := by rw [← hk]; exact Nat.le_max_left _ _
+      have hk2 : k ≤ f.length := by
+        rw [← hk]; apply Nat.max_le.mpr; exact ⟨by omega, Nat.min_le_right _ _⟩
+      rw [ih (f.drop k) _ _ (by simp; omega)]
+      simp only [List.append_assoc, List.take_append_drop, List.length_drop, Prod.mk.injEq, true_and]
+      omega
+
+theorem sappendLoop_eq (step : Nat → Nat) (fs : List Frag) (cur : List Byte) (done : List (List Byte)) (total : Nat) :
+    Msg.sappendLoop step fs cur done total = (total + fs.flatten.length, cur ++ fs.flatten, done) := by
   induction fs generalizing cur total with
   | nil => simp [Msg.sappendLoop]
   | cons f fs ih =>
     unfold Msg.sappendLoop
     split
-    · rw [ih]; simp; omega
+    · rw [pushPart_eq step _ f cur total (Nat.le_refl _)]
+      simp only []
+      rw [ih]; simp; omega
     · rename_i h
       have : f = [] := List.eq_nil_of_length_eq_zero (by omega)
       rw [ih]; simp [this]
